@@ -86,12 +86,28 @@ func (s *Sim) runW4Log() {
 	inRoot := filepath.Join(s.ws, "login")
 	outRoot := filepath.Join(s.ws, "logout")
 	logNode := &taskNode{id: 99}
+	var openedMu sync.Mutex
+	var opened []*os.File
+	defer func() {
+		openedMu.Lock()
+		for _, fh := range opened {
+			fh.Close()
+		}
+		openedMu.Unlock()
+	}()
 	mkOpen := func() stslog.OpenFile {
 		return func(path string, flag int, perm os.FileMode) (*os.File, error) {
 			if s.hot["log.open"] {
 				s.park(logNode, "log.open", s.rel(path), nil)
 			}
-			return os.OpenFile(path, flag, perm)
+			fh, err := os.OpenFile(path, flag, perm)
+			if err == nil {
+				// the loggers have no Close: their day files are closed when the run is over
+				openedMu.Lock()
+				opened = append(opened, fh)
+				openedMu.Unlock()
+			}
+			return fh, err
 		}
 	}
 	in := stslog.NewFileIO(inRoot, nil, mkOpen(), true)
